@@ -510,8 +510,6 @@ func (ru *Rule) errorsFail(fn *ssa.Function, tolerated ...string) int {
 					if k := calleeKey(x); k == "errors.Is" || k == "errors.As" {
 						special = true
 					}
-				case *ssa.MakeInterface, *ssa.ChangeInterface:
-					special = true
 				}
 			}
 			if !nilTested || special {
@@ -527,7 +525,13 @@ func (ru *Rule) errorsFail(fn *ssa.Function, tolerated ...string) int {
 			}
 			bad := ""
 			for _, ret := range returnsOf(fn) {
-				if !isNilConst(retVal(ret, ei)) {
+				rv := retVal(ret, ei)
+				if ld, isLd := rv.(*ssa.UnOp); isLd && ld.Op == token.MUL {
+					if sv := loadedValue(ld); sv != nil {
+						rv = strip(sv) // (a named result spilled through its cell because of a defer: what this return stored)
+					}
+				}
+				if !isNilConst(rv) {
 					continue // (only the plain `return .., nil` counts as success here: anything else may be the failure in another form)
 				}
 				w, _ := (&Cut{Fn: fn, From: []ssa.Instruction{call}, Target: isInstr(ret), EdgeCut: anyEdge(edgeNil(isV, true), failCut(ret)), StopAtFrom: true}).Run(c)
